@@ -91,21 +91,27 @@ CLAIMS = {
         note="c04_sentence_sound needs Scope (no trims, TermGood terminals); c04_xor needs nothing.",
         technique="Lean 4 theorems over the parse/evaluate model (case analysis of Parse, derivation inversion for Sentence, induction for the evaluator) + oracle on the real Parse/Evaluate under recover + differential correspondence"),
     "C05": dict(
-        text="PARTIAL (value theorem modulo completeness). Machine-checked (Lean 4) for the closed term Garith - the arithmetic "
-             "grammar exactly as the harness builds it from library combinators (Memoize, Any, SeqOf, Trim, Integer, Rune, Sentence); "
-             "a driver command compares the harness's grammar with Garith on every run and the custom interpreter the driver binds "
-             "is proved equal to the one in the theorems: every derivation of the grammar is sentence[expression tree, EOF] with "
-             "the three-level expr/term/factor shape and operator leaves sitting on the corresponding input bytes (c05_tree_shape, "
-             "c05_*_tree_iff; through c01_sound every tree Parse returns has that shape); evaluation of an expression tree is "
-             "EXACTLY the reference evaluator on the expression the tree denotes - left-associative by construction, int64 "
-             "wrap-around, truncated division, division by zero reported at the position of the offending '/' leaf (c05_value, "
-             "c05_eval_total, c05_ref_error_at, c05_error_position/text), never a panic (c05_no_panic); so whenever Evaluate answers a "
-             "value it is the reference value of the parsed tree, which spans the whole input (c05_value_partial, c05_evaluate). "
-             "NOT proved: that the tree found is the tree of the rendered expression (completeness + unambiguity: "
-             "c05_value_STATEMENT) and that every accepted input is a rendering (c05_reject_STATEMENT); both are decided per case "
-             "by the differential run against an independent reference evaluator on generated expressions and their ill-formed mutations.",
-        note="The model's evaluate on this grammar is not kernel-reducible (well-founded cpUnion); the concrete end-to-end examples in Props/C05.lean are #guard tests, labelled as tests.",
-        technique="Lean 4 theorems on a closed grammar term (derivation inversion through an abstract-reference relation, evaluation homomorphism) + grammar-identity stream + differential run against a reference evaluator"),
+        text="Machine-checked proof (Lean 4) of the FULL value theorem on the model: for the closed term Garith - the arithmetic grammar "
+             "exactly as the harness builds it from library combinators (Memoize, Any, SeqOf, Trim, Integer, Rune, Sentence; a "
+             "driver command compares the harness's grammar with Garith on every run, and the custom interpreter the driver binds is "
+             "proved equal to the one in the theorems) - and EVERY well-formed expression (any nesting, operator mix, parentheses, "
+             "signed / hex / octal int64 literals) rendered with ANY whitespace of spaces, tabs, line feeds and form feeds in every "
+             "gap, there is a fuel beyond which Parse returns exactly the one tree of the expression and Evaluate returns the "
+             "reference evaluator's answer - left-associative, usual precedence, int64 wrap-around, truncated division - or the "
+             "division-by-zero error positioned at the offending '/' (c05_value_full, c05_value_text, c05_parse_full, "
+             "c05_div_zero_at). Ingredients, each a theorem: the expected derivation exists, also as a CURTAILED derivation from the "
+             "empty context (c05_derivation_curtailed: the left-spine counters never exceed the remaining input); cache reuse never "
+             "loses it (completeness re-proved for the fragment with Trim); the grammar is UNAMBIGUOUS on every input (c05_unambiguous, "
+             "c05_returned_exact: exactly one tree); the parser TERMINATES on every input of this grammar, trims included "
+             "(c05_terminates). Also: every derivation is sentence[expression tree, EOF], evaluation of an expression tree is exactly "
+             "the reference evaluation of the expression it denotes, never a panic (c05_tree_shape, c05_value, c05_no_panic). "
+             "Ill-formed inputs: Parse/Evaluate answer an error or a value of a tree that spans the input (c05_reject); that no "
+             "ill-formed text is accepted is decided per case by the differential run against an independent recursive-descent "
+             "reference evaluator on generated expressions and their mutations.",
+        note="Derives (the monotone reading with rtrimKeep) is deliberately not unique on this grammar (c05_derives_not_unique); uniqueness "
+             "is proved for the exact trees the parser returns. The model's evaluate on this grammar is not kernel-reducible "
+             "(well-founded cpUnion): the concrete end-to-end examples are proved THROUGH the theorems, the #guard lines are labelled tests.",
+        technique="Lean 4 theorems on a closed grammar term (constructed curtailed derivation, reuse-completeness with Trim, unambiguity by a cut relation on trees, termination by descent, evaluation homomorphism) + grammar-identity stream + differential run against a reference evaluator"),
     "C06": dict(
         text="Machine-checked proof (Lean 4) over the parser-core model with its ghost log of failed terminals: PROVENANCE - every "
              "error value that lives anywhere (returned, sequence / alternative accumulators, context error, cached) is a logged "
